@@ -137,11 +137,22 @@ def freeUp (c : Cfg) (st : St) : St :=
     { st with hs := r.1, evs := r.2.1, lastAlloc := r.2.2 }
   else st
 
-inductive Consume | meas | free
+inductive Consume
+  | meas      -- destructive measurement
+  | free      -- `free()`
+  | inplace   -- `measure(inplace=True)`: the pair stays alive
+  | none      -- gates only: the pair stays alive
   deriving Repr, DecidableEq
 
+/-- does the body / post routine release the pair's qubit? -/
+def Consume.consumes : Consume → Bool
+  | .meas => true
+  | .free => true
+  | .inplace => false
+  | .none => false
+
 /-- what the loop body / post routine does with the pair's qubit: `gates` single-qubit gates,
-then a destructive measurement or a `free()` -/
+then a destructive measurement, a `free()`, an in-place measurement, or nothing more -/
 structure Body where
   gates : Nat
   consume : Consume
@@ -151,7 +162,9 @@ def bodyEvs (d : Nat) (b : Body) : List Ev :=
   List.replicate b.gates (.use d) ++
     (match b.consume with
      | .meas => [.use d, .free d]
-     | .free => [.free d])
+     | .free => [.free d]
+     | .inplace => [.use d]
+     | .none => [])
 
 inductive Op
   | new                                   -- `Qubit(conn)`
@@ -161,6 +174,7 @@ inductive Op
   | free (h : Nat)                        -- `q.free()`
   | keep (recv : Bool) (n : Nat)          -- create_keep / recv_keep (number=n)
   | seq (recv : Bool) (n : Nat) (b : Body)              -- …(number=n, sequential=True, post_routine)
+  | postk (recv : Bool) (n : Nat) (b : Body)            -- …(number=n, post_routine) with sequential=False
   | ctx (recv : Bool) (n : Nat) (sequential : Bool) (b : Body)  -- create_context / recv_context
   | keepr (recv : Bool) (n fails tries : Nat)
       -- create_keep/recv_keep(number=n, min_fidelity_all_at_end=…, max_tries=tries); the first
@@ -287,17 +301,28 @@ def apply (c : Cfg) (st : St) : Op → St × Res
     | .error st1 => (st1, .assertion)
     | .ok (st1, ids) =>
       let arr := if c.single then List.replicate n 0 else ids
-      -- the post routine consumed the pair's qubit: the n returned handles are deactivated
-      ({ st1 with hs := releaseLast n st1.hs,
+      -- if the post routine consumed the pair's qubit the n returned handles are deactivated;
+      -- otherwise they stay (the per-pair placeholder never does: fix of F49)
+      ({ st1 with hs := if b.consume.consumes then releaseLast n st1.hs else st1.hs,
                   evs := st1.evs ++ arr.flatMap (fun d => .deliver d :: bodyEvs d b),
                   lastAlloc := none }, .ok)
+  | .postk _ n b =>
+    if c.maxq < n then (st, .valueError)
+    -- with one communication qubit the handles are created as for a sequential request (fix of F50)
+    else match createEnt c st n c.single with
+      | .error st1 => (st1, .assertion)
+      | .ok (st1, ids) =>
+        let arr := if c.single then List.replicate n 0 else ids
+        ({ st1 with hs := if b.consume.consumes then releaseLast n st1.hs else st1.hs,
+                    evs := st1.evs ++ arr.flatMap (fun d => .deliver d :: bodyEvs d b),
+                    lastAlloc := none }, .ok)
   | .ctx _ n sequential b =>
     if !sequential && c.maxq < n then (st, .valueError)
     else match createEnt c st n (sequential || c.single) with
       | .error st1 => (st1, .assertion)
       | .ok (st1, ids) =>
-        -- the body consumed the pair's qubit: `_post_epr_context` releases the placeholders
-        ({ st1 with hs := releaseLast n st1.hs,
+        -- `_post_epr_context` releases the placeholders iff the body consumed the pair's qubit
+        ({ st1 with hs := if b.consume.consumes then releaseLast n st1.hs else st1.hs,
                     evs := st1.evs ++ ids.flatMap (fun d => .deliver d :: bodyEvs d b),
                     lastAlloc := none }, .ok)
   | .keepr _ n fails tries =>
@@ -320,7 +345,7 @@ def apply (c : Cfg) (st : St) : Op → St × Res
     | .ok (st1, ids) =>
       let arr := if c.single then List.replicate n 0 else ids
       let attempt := arr.flatMap (fun d => .deliver d :: bodyEvs d b)
-      ({ st1 with hs := releaseLast n st1.hs,
+      ({ st1 with hs := if b.consume.consumes then releaseLast n st1.hs else st1.hs,
                   evs := st0.evs ++ retryEvs attempt [] fails tries, lastAlloc := none }, .ok)
   | .flush => flushSt c st
   | .close =>
